@@ -414,19 +414,31 @@ func checkC11(c *Ctx) {
 			"iterates the dictionary through keyOrder", "observer of a dictionary does not iterate keyOrder (or ranges over the Go map)")
 	}
 	// evaluator: 遍历 over a dictionary uses GetKeyOrder()
-	if fd, p := u.funcDecl("pkg/exec", "evalIterateStmt"); fd != nil {
-		ok := false
-		ast.Inspect(fd.Body, func(n ast.Node) bool {
-			if rs, isR := n.(*ast.RangeStmt); isR {
-				if call, isC := ast.Unparen(rs.X).(*ast.CallExpr); isC {
-					if f := calleeFunc(p.TypesInfo, call); funcID(f) == "pkg/value.HashMap.GetKeyOrder" {
+	if g := u.ssaFunc("pkg/exec", "evalIterateStmt"); g != nil {
+		// inside a loop an element of the GetKeyOrder() result is read (range statement or index loop), and the Go
+		// map itself is never ranged over
+		ok, rangesMap := false, false
+		for _, h := range family(g, 1) {
+			if h.Pkg != g.Pkg {
+				continue
+			}
+			for _, in := range instrsOf(h) {
+				switch x := in.(type) {
+				case *ssa.Range:
+					if _, isMap := x.X.Type().Underlying().(*types.Map); isMap {
+						rangesMap = true
+					}
+				case *ssa.IndexAddr:
+					if loopBlock(x.Block()) && flowsFrom(x.X, func(v ssa.Value) bool {
+						call, isC := v.(*ssa.Call)
+						return isC && u.callName(call) == "pkg/value.HashMap.GetKeyOrder"
+					}) {
 						ok = true
 					}
 				}
 			}
-			return true
-		})
-		R.check(ok, "C11.order", "pkg/exec.evalIterateStmt", u.pos(fd.Pos()), "dictionary pass ranges over GetKeyOrder()", "dictionary pass does not range over GetKeyOrder()")
+		}
+		R.check(ok && !rangesMap, "C11.order", "pkg/exec.evalIterateStmt", u.pos(g.Pos()), "dictionary pass ranges over GetKeyOrder()", "dictionary pass does not range over GetKeyOrder()")
 	} else {
 		R.lost("C11.order", "pkg/exec.evalIterateStmt")
 	}
